@@ -30,6 +30,8 @@ def specs_for(ctx):
         dict(D=3, target="sphere", box="sym", noise="specified", sigma=0.3, cons="ball", options=dict(max_fun_evals=90, noise_final_samples=3), seed=sd + 7),
         dict(D=2, target="sphere", box="sym", noise="specified", sigma=0.3, sdjitter=True, options=dict(max_fun_evals=70, noise_final_samples=3), seed=sd + 11),
         dict(D=2, target="sphere", box="sym", noise="specified", sigma=0.3, sdjitter=True, options=dict(max_fun_evals=60, noise_final_samples=1), seed=sd + 12),
+        # tol_noise = 0: an exactly repeatable target is still deterministic (a difference must EXCEED the tolerance)
+        dict(D=2, target="sphere", box="sym", noise="det", options=dict(max_fun_evals=40, tol_noise=0), seed=sd + 14),
         # uncertainty_handling=False given EXPLICITLY on a noisy target: the run-time noise test still decides
         dict(D=2, target="sphere", box="sym", noise="auto", sigma=0.3, options=dict(max_fun_evals=60, noise_final_samples=2, uncertainty_handling=False), seed=sd + 13),
         # auto-detection with noise that is tiny relative to the function value (the rule is ABSOLUTE: |y0 - y0'| > tol_noise)
